@@ -732,6 +732,8 @@ pub fn run_history(ctx: &mut Ctx, src: &mut Source, seed: u64) -> Option<History
     let mut rolled_back = false;
     let mut aborted_by_reopen = false;
     let mut rolled_back_since_open = false;
+    // per table: the largest AUTO_INCREMENT value that was ever part of the committed state
+    let mut committed_auto_max: std::collections::BTreeMap<String, i64> = Default::default();
     // tables that got a column added while they held rows (old rows keep the old record layout)
     let mut widened_tables: Vec<String> = vec![];
     let mut ever_long = false;
@@ -984,7 +986,7 @@ pub fn run_history(ctx: &mut Ctx, src: &mut Source, seed: u64) -> Option<History
                 // adopt generated ids (C12 monitors them)
                 if let (Some((tn, pos, ac)), ARes::Affected { returning: Some(ret), .. }) = (&pred.generated, act) {
                     if let Some(nv) = new_view.as_mut() {
-                        let bad = adopt_generated(ctx, &view_before, nv, tn, pos, *ac, ret, &desc, &sig_base);
+                        let bad = adopt_generated(ctx, &view_before, nv, tn, pos, *ac, ret, &desc, &sig_base, committed_auto_max.get(tn).copied().unwrap_or(0));
                         if bad {
                             diverged = true;
                         }
@@ -1134,6 +1136,17 @@ pub fn run_history(ctx: &mut Ctx, src: &mut Source, seed: u64) -> Option<History
             (_, Actual::Panic(_)) => unreachable!(),
         }
 
+        if !model.any_txn() {
+            for (tn, t) in &model.committed.tables {
+                if let Some(ac) = t.auto_col() {
+                    let m = t.rows.iter().filter_map(|r| if let Some(Val::Int(i)) = r.get(ac) { Some(*i) } else { None }).max().unwrap_or(0);
+                    let e = committed_auto_max.entry(tn.clone()).or_insert(0);
+                    if m > *e {
+                        *e = m;
+                    }
+                }
+            }
+        }
         if matches!(op, Op::Rollback | Op::RollbackTo(_)) && actual.is_ok() {
             rolled_back = true;
         }
@@ -1391,6 +1404,7 @@ fn adopt_generated(
     ret: &[Row],
     desc: &str,
     sig_base: &[(&str, String)],
+    committed_max: i64,
 ) -> bool {
     let t = match nv.tables.get_mut(table) {
         Some(t) => t,
@@ -1419,6 +1433,9 @@ fn adopt_generated(
         match r.get(ac) {
             Some(Val::Int(id)) => {
                 let mut sig = sig_base.to_vec();
+                // does the id collide with / fall below one that was once committed, or only with
+                // ids used by work that never committed?
+                sig.push(("below_committed", (*id <= committed_max).to_string()));
                 if ever.contains(id) {
                     sig.push(("how", "reused".into()));
                     ctx.violate("C12", "autoinc-reused", &sig, format!("{}: generated id {} was already held/generated for {}", desc, id, table), None);
